@@ -13,12 +13,17 @@
     C02_local_xmlns       only an unprefixed `xmlns` (or the `xmlns:` prefix) is a declaration
     C02_merge, C02_scope_nearest / _base / _unprefixed_attribute   builder-side pieces of merging
                           and XML-Namespaces scoping
+    C02_spelled_fragment / C02_spelled_document   TREE LEVEL, documents without namespaces: for every
+                          abstract document and every spelling of it (pieces, CDATA interleaving,
+                          empty-element tags, all positions) `parse_fragment` / `parse` on its tokens
+                          yields exactly that document
   Closed examples (token lists of the real tokenizer, replayed on the implementation by the
   `build` suite) accompany each of them.
 -/
 import XotModel.Lemmas.ParseContent
 import XotModel.Lemmas.Parse
 import XotModel.Lemmas.ParseWitnessData
+import XotModel.Lemmas.ParseSpellTop
 
 namespace XotModel.Props
 open XotModel XotModel.Witness
@@ -157,5 +162,66 @@ theorem C02_scope_unprefixed_attribute (env : Env) (stack : NsStack) (name : Str
   attributeNameId_unprefixed env stack name sp h
 
 example : Env.fresh.prefixes.head? = some [] := rfl
+
+/-! ### C02_spelled: every spelling of every namespace-free document parses to that document
+
+`SNode` is a spelling (Lemmas/ParseSpellDefs.lean): which pieces spell each attribute value and each
+run of character data, where CDATA sections (possibly empty, possibly with CR / CR LF) are
+interleaved, `<a/>` or `<a></a>`, every byte position and every whole-token span (all arbitrary).
+`denote` is the abstract document (`PNode`) it stands for, `tokens` what a tokenizer makes of
+it.  The result is read back through the interning tables the parse leaves behind. -/
+
+/-- `parse_fragment`: the children of the document node, read back, are exactly the denoted nodes. -/
+theorem C02_spelled_fragment {env : Env} (h : EnvBase env) (len : Nat) (sns : List SNode)
+    (hw : SNode.Well.wellList sns) (hadj : noAdjChars sns = true) :
+    ∃ p, build .fragment len env (SNode.tokens.tokensList sns) none = .ok p ∧
+      p.tree.value = .document ∧
+      decodeTree.decodeList p.env p.tree.kids = some ((SNode.denote.denoteList sns).map Sum.inr) := by
+  obtain ⟨p, hb, ht, he⟩ := build_fragment_spelled h len sns hw hadj
+  refine ⟨p, hb, by rw [ht]; rfl, ?_⟩
+  rw [ht, he]
+  exact decodeList_encodeList _ env _ (EnvExt.refl _)
+
+/-- `parse`: the same, when the denoted top level has exactly one element and no text. -/
+theorem C02_spelled_document {env : Env} (h : EnvBase env) (len : Nat) (sns : List SNode)
+    (hw : SNode.Well.wellList sns) (hadj : noAdjChars sns = true)
+    (htop : AbstractTop (SNode.denote.denoteList sns)) :
+    ∃ p, build .document len env (SNode.tokens.tokensList sns) none = .ok p ∧
+      p.tree.value = .document ∧
+      decodeTree.decodeList p.env p.tree.kids = some ((SNode.denote.denoteList sns).map Sum.inr) := by
+  obtain ⟨p, hb, ht, he⟩ := build_document_spelled h len sns hw hadj (wellFormedTop_of_abstract htop)
+  refine ⟨p, hb, by rw [ht]; rfl, ?_⟩
+  rw [ht, he]
+  exact decodeList_encodeList _ env _ (EnvExt.refl _)
+
+/-- The tables of a fresh `Xot` satisfy the hypothesis. -/
+theorem C02_envBase_fresh : EnvBase Env.fresh := ⟨rfl, ⟨['i', 'd'], 1, rfl, by decide⟩⟩
+
+/-- Non-vacuity: `<a k="x&amp;"><!--c-->t<![CDATA[ CR LF ]]><b/></a>` as a spelling; it is well
+    formed and denotes `a[k="x&"](comment c, text "t LF", b)`. -/
+def spelledExample : List SNode :=
+  [.elem ⟨['a'], 1⟩ 0 ⟨[], 0⟩
+    [{ name := ⟨['k'], 3⟩, pstart := 0, pieces := [.lit 'x', .named ['a', 'm', 'p']], vstart := 6, junk := ⟨[], 0⟩ }]
+    ⟨['>'], 13⟩
+    [.comment ⟨['c'], 18⟩ ⟨[], 0⟩,
+     .chars [.txt [.lit 't'] 22, .cd ⟨['\r', '\n'], 32⟩ ⟨[], 0⟩],
+     .empty ⟨['b'], 38⟩ 0 ⟨[], 0⟩ [] ⟨['/', '>'], 39⟩]
+    ⟨['a'], 43⟩ 0 ⟨['<', '/', 'a', '>'], 41⟩]
+
+example : SNode.Well.wellList spelledExample ∧ noAdjChars spelledExample = true := by
+  refine ⟨⟨⟨⟨?_, by decide⟩, rfl, by decide, trivial, ?_, ⟨⟨fun a ha => by simp at ha, by decide⟩, trivial⟩⟩, trivial⟩, by decide⟩
+  · intro a ha
+    simp only [List.mem_singleton] at ha
+    subst ha
+    exact ⟨⟨⟨by decide, by decide⟩, ⟨by decide, (fun r h => by cases h), by decide⟩, trivial⟩, by decide⟩
+  · intro p hp
+    simp only [List.mem_cons, List.mem_singleton, List.not_mem_nil, or_false] at hp
+    rcases hp with rfl | rfl
+    · exact ⟨by decide, ⟨by decide, by decide⟩, trivial⟩
+    · trivial
+
+example : SNode.denote.denoteList spelledExample =
+    [.elem ['a'] [(['k'], ['x', '&'])] [.comment ['c'], .text ['t', '\n'], .elem ['b'] [] []]] := by
+  rfl
 
 end XotModel.Props
